@@ -44,7 +44,8 @@ package soyhtml
 // malformed arguments (negative limit, invalid UTF-8 prefix) are converted to
 // render errors by evalPrint's recover (C06), so they are permitted exits.
 //@ func directiveTruncate
-//@   props C16
+//@   like renderFn
+//@   props C16 C08 C09
 //@   nosafety
 //@   stringsexact
 //@   ghost gs string = ""
@@ -104,7 +105,8 @@ package soyhtml
 
 // HTML-producing directives still escape every data character they pass through.
 //@ func directiveEscapeHtml
-//@   props C03 C16
+//@   like renderFn
+//@   props C03 C16 C08 C09
 //@   nosafety
 //@   ghost vs string = ""
 //@   ghost esc string = ""
@@ -114,7 +116,8 @@ package soyhtml
 //@   ensures[no-raw-data] typeis(result, data.String) && unbox(result, data.String) == esc
 
 //@ func directiveChangeNewlineToBr
-//@   props C03 C16
+//@   like renderFn
+//@   props C03 C16 C08 C09
 //@   nosafety
 //@   ghost vs string = ""
 //@   ghost esc string = ""
@@ -127,7 +130,8 @@ package soyhtml
 //@   ensures[no-raw-data] typeis(result, data.String) && unbox(result, data.String) == out
 
 //@ func directiveInsertWordBreaks
-//@   props C03 C16
+//@   like renderFn
+//@   props C03 C16 C08 C09
 //@   nosafety
 //@   ghost vs string = ""
 //@   ghost esc string = ""
@@ -201,11 +205,12 @@ package soyhtml
 // (a non-positive increment is rejected before the loop). Type assertions on
 // the arguments may panic; evalFunc's recover turns that into a render error.
 //@ func funcRange
-//@   props C06 C01
+//@   like renderFn
+//@   props C06 C01 C08 C09
 //@   nosafety
 //@   ensures[bounded] typeis(result, data.List)
 //@   loop 0
-//@     invariant increment > 0
+//@     invariant increment > 0 && fresh(indices)
 //@     decreases limit - index
 
 // Intermediate recover sites never swallow a panic: they return normally only
@@ -273,15 +278,15 @@ package soyhtml
 // Registry.Add maintains); every panic raised afterwards reaches errRecover,
 // which is proved above to complete and to assign a non-nil error.
 //@ func (Renderer).Execute
-//@   props C06
+//@   like renderFn
+//@   props C06 C08 C09
 //@   recoverby (*state).errRecover
-//@   modifies *
 //@   requires[registry-built-by-Add] t.tofu != nil && t.tofu.registry != nil ==> registryOK(t.tofu.registry)
 
 //@ func EvalExpr
-//@   props C06
+//@   like renderFn
+//@   props C06 C08 C09
 //@   recoverby (*state).errRecover
-//@   modifies *
 
 // ---------------------------------------------------------------------------
 // C08 / C09: write confinement. Every function of the render closure may
@@ -337,5 +342,74 @@ package soyhtml
 //@   like renderFn
 //@   nosafety
 //@ func (*state).at
+//@   like renderFn
+//@   nosafety
+
+// The builtin functions and directives (the default contents of the registries)
+// respect the same frame that calls through the registries are assumed to have.
+//@ func funcIndex
+//@   like renderFn
+//@   nosafety
+//@ func funcIsFirst
+//@   like renderFn
+//@   nosafety
+//@ func funcIsLast
+//@   like renderFn
+//@   nosafety
+//@ func funcIsNonnull
+//@   like renderFn
+//@   nosafety
+//@ func funcLength
+//@   like renderFn
+//@   nosafety
+//@ func funcKeys
+//@   like renderFn
+//@   nosafety
+//@   loop 0
+//@     invariant fresh(keys)
+//@     noterm
+//@ func funcAugmentMap
+//@   like renderFn
+//@   nosafety
+//@ func funcRound
+//@   like renderFn
+//@   nosafety
+//@ func funcFloor
+//@   like renderFn
+//@   nosafety
+//@ func funcCeiling
+//@   like renderFn
+//@   nosafety
+//@ func funcMin
+//@   like renderFn
+//@   nosafety
+//@ func funcMax
+//@   like renderFn
+//@   nosafety
+//@ func funcRandomInt
+//@   like renderFn
+//@   nosafety
+//@ func funcStrContains
+//@   like renderFn
+//@   nosafety
+//@ func funcHasData
+//@   like renderFn
+//@   nosafety
+//@ func directiveNoAutoescape
+//@   like renderFn
+//@   nosafety
+//@ func directiveEscapeUri
+//@   like renderFn
+//@   nosafety
+//@ func directiveEscapeJsString
+//@   like renderFn
+//@   nosafety
+//@ func directiveJson
+//@   like renderFn
+//@   nosafety
+//@ func checkNumArgs
+//@   like renderFn
+//@   nosafety
+//@ func isNullSafeAccess
 //@   like renderFn
 //@   nosafety
